@@ -1,6 +1,1624 @@
-//! C02 — harness module not built yet.
+//! C02 — a mint charges exactly the price in force and disburses all of it.
+//! Part 1: the six vending minters (w_sale.rs / SaleCorr.v).  Part 2: the three open-edition
+//! minters and the base minter (oe_world.rs / SaleOeCorr.v).  Token-merge minter: not covered
+//! here (its deposit logic is C17's).
+//! Worlds with governance-chosen prices / fee bps / airdrop price, native and IBC factory
+//! denom, with and without payment address, optional whitelist with its own price.
+//! Histories are generated *adaptively*: before every mint the generator asks the real
+//! contracts for the price in force and then sends the payment sweep (price-1, price+1,
+//! wrong denom, two coins, nothing / a coin at price 0, exact).  The executed op list is the
+//! case (so a replay re-runs exactly it).  Monitors (`judge`) evaluate the property text on
+//! the bank balances of every tracked account and the supply before/after every step; they
+//! share no code with the model.  Every minter step is also printed for the Coq model
+//! (handler state, queries, every balance after every step).
+//! Recorded finding (DESIGN §8 D6): vending airdrops strand price - fee in the minter; key
+//! `C02:vending-airdrop-remainder-stranded` is emitted for exactly that shape and nothing else.
+use crate::chain;
+use crate::util::*;
+use crate::oe_world::*;
+use crate::w_sale::*;
 use crate::Args;
-pub fn run(_a: &Args) {
-    eprintln!("C02: harness module not built yet");
-    std::process::exit(2);
+use serde::{Deserialize, Serialize};
+use serde_json::Value;
+use std::collections::{BTreeMap, BTreeSet};
+
+const BIG: u128 = 1u128 << 100;
+const FUND: u128 = 1u128 << 110;
+const KNOWN_KEY: &str = "C02:vending-airdrop-remainder-stranded";
+
+#[derive(Clone, Debug, Serialize, Deserialize)]
+pub struct Case {
+    pub variant: usize,
+    pub ibc: bool,
+    pub min_price: u128,
+    pub price: u128,
+    pub mint_fee_bps: u64,
+    pub airdrop_price: u128,
+    pub airdrop_fee_bps: u64,
+    pub payment_address: bool,
+    pub wl: bool,
+    pub wl_price: u128,
+    pub ops: Vec<Op>,
+}
+
+fn cfg_of(c: &Case) -> SaleCfg {
+    let mut cfg = SaleCfg::basic(c.variant);
+    cfg.fp.min_price = c.min_price;
+    cfg.fp.denom = if c.ibc { IBC.into() } else { NATIVE.into() };
+    cfg.fp.mint_fee_bps = c.mint_fee_bps;
+    cfg.fp.airdrop_price = c.airdrop_price;
+    cfg.fp.airdrop_fee_bps = c.airdrop_fee_bps;
+    cfg.num_tokens = 100;
+    cfg.pal = 3;
+    cfg.price = c.price;
+    cfg.start_in_secs = 3000;
+    cfg.payment_address = c.payment_address;
+    cfg.wl = if !c.wl {
+        WlKind::None
+    } else if VARIANTS[c.variant].flex {
+        WlKind::Flex
+    } else {
+        WlKind::Plain
+    };
+    cfg.wl_windows = vec![(1000, 2000)];
+    cfg.wl_price = c.wl_price;
+    cfg.wl_limit = 20;
+    cfg.wl_flex_count = 20;
+    cfg
+}
+
+pub struct CaseResult {
+    pub coq: Option<String>,
+    pub steps: u64,
+    pub ok_mints: u64,
+    pub violations: Vec<(String, String, usize)>, // (key, what, index of the op in case.ops)
+    pub hist: BTreeMap<String, u64>,
+    pub distinct: BTreeSet<String>,
+}
+
+fn op_kind(op: &Op) -> &'static str {
+    match op {
+        Op::At { .. } => "at",
+        Op::Mint { .. } => "mint",
+        Op::MintM { .. } => "mint_merkle",
+        Op::MintTo { .. } => "mint_to",
+        Op::MintFor { .. } => "mint_for",
+        Op::Purge { .. } => "purge",
+        Op::Shuffle { .. } => "shuffle",
+        Op::BurnRemaining { .. } => "burn_remaining",
+        Op::UpdateMintPrice { .. } => "update_mint_price",
+        Op::UpdateStartTime { .. } => "update_start_time",
+        Op::UpdateStartTradingTime { .. } => "update_start_trading_time",
+        Op::UpdatePerAddressLimit { .. } => "update_per_address_limit",
+        Op::SetWhitelist { .. } => "set_whitelist",
+        Op::UpdateDiscountPrice { .. } => "update_discount_price",
+        Op::RemoveDiscountPrice { .. } => "remove_discount_price",
+        Op::SudoParams { .. } => "sudo_params",
+        Op::WlAddMember { .. } => "wl_add_member",
+    }
+}
+
+fn amount_of(v: &Value) -> Option<(u128, String)> {
+    Some((v.get("amount")?.as_str()?.parse().ok()?, v.get("denom")?.as_str()?.to_string()))
+}
+
+/// What the property text needs to know before a mint: the price in force for this kind
+/// of mint, the fee rate that applies, and who is the seller.
+struct Pre {
+    price: u128,
+    denom: String,
+    bps: u64,
+    airdrop: bool,
+    kind: &'static str, // public | whitelist | airdrop
+    payer: String,
+    funds: Vec<(String, u128)>,
+}
+
+type Slots = BTreeMap<(String, String), i128>;
+
+/// how the fee schedule splits the network fee
+pub enum Split {
+    /// vending family: liquidity DAO 1/5 of the fee rounded up (1/8 on featured variants), launchpad DAO the rest
+    Vending { featured: bool },
+    /// open edition: developer 1/2 rounded up, then liquidity DAO 1/5 of what is left rounded up, launchpad DAO the rest
+    Oe { dev: String },
+    /// base minter: the whole amount is fair-burned: half (rounded down) burned, the rest to the fair-burn pool; no seller
+    Base,
+}
+
+pub struct MintFacts {
+    pub vname: String,
+    pub kind: &'static str,
+    pub airdrop: bool,
+    pub payer: String,
+    pub funds: Vec<(String, u128)>,
+    pub price: u128,
+    pub denom: String,
+    pub bps: u64,
+    pub seller: String,
+    pub minter: String,
+}
+
+/// The property text evaluated on one SUCCESSFUL mint: exact payment, and every balance moved as
+/// documented (payer -price, fee = floor(price*bps/10^4) to the fee recipients, the rest to the
+/// seller, minter unchanged, nothing else, supply only by the burned amount).
+pub fn judge(f: &MintFacts, split: &Split, actual: &Slots, op_dbg: &str) -> Vec<(String, String)> {
+    let mut out = vec![];
+    let exact = if f.price == 0 { f.funds.is_empty() } else { f.funds.len() == 1 && f.funds[0].0 == f.denom && f.funds[0].1 == f.price };
+    if !exact {
+        out.push((
+            format!("C02:accepted-inexact-payment:{}", f.kind),
+            format!("{}: {} mint succeeded with funds {:?} while the price in force is {} {}", f.vname, f.kind, f.funds, f.price, f.denom),
+        ));
+    }
+    let mut want: Slots = BTreeMap::new();
+    let mut add = |a: &str, x: i128| {
+        if x != 0 {
+            *want.entry((a.to_string(), f.denom.clone())).or_insert(0) += x;
+        }
+    };
+    add(&f.payer, -(f.price as i128));
+    let fee: u128;
+    let rest: i128;
+    match split {
+        Split::Vending { featured } => {
+            fee = f.price * f.bps as u128 / 10_000;
+            let div: u128 = if *featured { 8 } else { 5 };
+            let liq = (fee + div - 1) / div;
+            add(LIQUIDITY_DAO, liq as i128);
+            add(LAUNCHPAD_DAO, (fee - liq) as i128);
+            rest = f.price as i128 - fee as i128;
+            add(&f.seller, rest);
+        }
+        Split::Oe { dev } => {
+            fee = f.price * f.bps as u128 / 10_000;
+            let devp = (fee + 1) / 2;
+            let left = fee - devp;
+            let liq = (left + 4) / 5;
+            add(dev, devp as i128);
+            add(LIQUIDITY_DAO, liq as i128);
+            add(LAUNCHPAD_DAO, (left - liq) as i128);
+            rest = f.price as i128 - fee as i128;
+            add(&f.seller, rest);
+        }
+        Split::Base => {
+            fee = f.price;
+            rest = 0;
+            add("#supply", -((fee / 2) as i128));
+            add(chain::FAIRBURN_POOL, (fee - fee / 2) as i128);
+        }
+    }
+    want.retain(|_, v| *v != 0);
+    let mut diff: Slots = BTreeMap::new();
+    for k in actual.keys().chain(want.keys()) {
+        let d = actual.get(k).copied().unwrap_or(0) - want.get(k).copied().unwrap_or(0);
+        if d != 0 {
+            diff.insert(k.clone(), d);
+        }
+    }
+    if diff.is_empty() {
+        return out;
+    }
+    let slot = |a: &str| (a.to_string(), f.denom.clone());
+    // the recorded defect, and nothing else: a VENDING airdrop whose remainder price - fee > 0 stays
+    // in the minter instead of reaching the seller; every other slot exactly as documented
+    let known = matches!(split, Split::Vending { .. })
+        && f.airdrop
+        && rest > 0
+        && diff.len() == 2
+        && diff.get(&slot(&f.minter)) == Some(&rest)
+        && diff.get(&slot(&f.seller)) == Some(&(-rest));
+    if known {
+        out.push((
+            KNOWN_KEY.to_string(),
+            format!(
+                "{}: airdrop at price {} {} with airdrop fee {} bps: payer -{}, fee recipients +{}, seller +0, minter balance +{} (remainder stranded)",
+                f.vname, f.price, f.denom, f.bps, f.price, fee, rest
+            ),
+        ));
+        return out;
+    }
+    let detail = format!(
+        "{}: {} mint {} at price {} {} ({} bps, fee {}, seller {}): balance changes {:?}, documented {:?}, difference {:?}",
+        f.vname, f.kind, op_dbg, f.price, f.denom, f.bps, fee, f.seller, actual, want, diff
+    );
+    let moved_supply = diff.keys().any(|k| k.0 == "#supply");
+    let sum_accounts: i128 = actual.iter().filter(|(k, _)| k.0 != "#supply").map(|(_, v)| *v).sum();
+    let sum_supply: i128 = actual.iter().filter(|(k, _)| k.0 == "#supply").map(|(_, v)| *v).sum();
+    let is_fee_rcpt = |a: &str| a == LIQUIDITY_DAO || a == LAUNCHPAD_DAO || a == FOUNDATION || a == chain::FAIRBURN_POOL || matches!(split, Split::Oe { dev } if dev == a);
+    let key = if diff.keys().any(|k| k.0 == f.minter) {
+        format!("C02:minter-balance-changed:{}", f.kind)
+    } else if diff.keys().any(|k| k.0 == f.payer) && f.payer != f.seller {
+        format!("C02:payer-charged-wrong-amount:{}", f.kind)
+    } else if diff.keys().any(|k| is_fee_rcpt(&k.0)) {
+        format!("C02:fee-split-wrong:{}", f.kind)
+    } else if diff.keys().any(|k| k.0 == f.seller || k.0 == CREATOR || k.0 == PAYADDR) {
+        format!("C02:seller-paid-wrong:{}", f.kind)
+    } else if moved_supply || sum_accounts != sum_supply {
+        format!("C02:coins-created-or-lost:{}", f.kind)
+    } else {
+        format!("C02:unexpected-balance-change:{}", f.kind)
+    };
+    out.push((key, detail));
+    out
+}
+
+fn deltas(b0: &BTreeMap<(String, String), u128>, b1: &BTreeMap<(String, String), u128>) -> Slots {
+    let mut actual: Slots = BTreeMap::new();
+    for (k, v1) in b1 {
+        let v0 = b0.get(k).copied().unwrap_or(0);
+        if *v1 != v0 {
+            actual.insert(k.clone(), *v1 as i128 - v0 as i128);
+        }
+    }
+    actual
+}
+
+pub struct Driver {
+    pub w: SaleWorld,
+    pub case: Case,
+    vname: &'static str,
+    featured: bool,
+    seller: String,
+    init: String,
+    init_bal: String,
+    steps: Vec<String>,
+    pub res: CaseResult,
+    op_index: usize,
+}
+
+impl Driver {
+    pub fn new(c: &Case) -> Result<Driver, String> {
+        let mut w = SaleWorld::new(cfg_of(c))?;
+        // very large prices need very rich payers
+        for a in [CREATOR, BUYERS[0], BUYERS[1], BUYERS[2], STRANGER] {
+            for d in [NATIVE, IBC] {
+                chain::mint_coins(&mut w.app, a, FUND, d);
+            }
+        }
+        for d in [NATIVE, IBC] {
+            w.initial_supply.insert(d.to_string(), chain::supply(&w.app, d));
+        }
+        let init = w.init_state_coq();
+        let init_bal = w.balances_coq();
+        let v = VARIANTS[c.variant];
+        Ok(Driver {
+            w,
+            case: Case { ops: vec![], ..c.clone() },
+            vname: v.name,
+            featured: v.featured,
+            seller: if c.payment_address { PAYADDR.into() } else { CREATOR.into() },
+            init,
+            init_bal,
+            steps: vec![],
+            res: CaseResult { coq: None, steps: 0, ok_mints: 0, violations: vec![], hist: BTreeMap::new(), distinct: BTreeSet::new() },
+            op_index: 0,
+        })
+    }
+
+    /// price in force as the contracts report it right now (MintPrice query for public /
+    /// whitelist mints; the factory's airdrop coin for MintTo / MintFor)
+    pub fn price_in_force(&self, airdrop: bool) -> Option<(u128, String)> {
+        if airdrop {
+            let p = self.w.factory_params();
+            amount_of(&p["extension"]["airdrop_mint_price"])
+        } else {
+            let mp = self.w.mint_price_q()?;
+            amount_of(&mp["current_price"])
+        }
+    }
+
+    fn whitelist_active(&self) -> bool {
+        let c = self.w.minter_config();
+        match c["whitelist"].as_str() {
+            Some(a) => self
+                .w
+                .app
+                .wrap()
+                .query_wasm_smart::<Value>(a.to_string(), &serde_json::json!({"config": {}}))
+                .ok()
+                .and_then(|v| v["is_active"].as_bool())
+                .unwrap_or(false),
+            None => false,
+        }
+    }
+
+    fn pre_observe(&self, op: &Op) -> Option<Pre> {
+        let (airdrop, payer, funds) = match op {
+            Op::Mint { who, funds } => (false, who.clone(), funds.clone()),
+            Op::MintTo { who, funds, .. } | Op::MintFor { who, funds, .. } => (true, who.clone(), funds.clone()),
+            _ => return None,
+        };
+        let (price, denom) = self.price_in_force(airdrop)?;
+        let fp = self.w.factory_params();
+        let bps = if airdrop { fp["extension"]["airdrop_mint_fee_bps"].as_u64()? } else { fp["mint_fee_bps"].as_u64()? };
+        let kind = if airdrop {
+            "airdrop"
+        } else if self.whitelist_active() {
+            "whitelist"
+        } else {
+            "public"
+        };
+        Some(Pre { price, denom, bps, airdrop, kind, payer, funds })
+    }
+
+    fn violation(&mut self, key: &str, what: String) {
+        if self.res.violations.len() < 8 {
+            self.res.violations.push((key.to_string(), what, self.op_index));
+        }
+    }
+
+    /// execute one op on the real contracts, evaluate the property text, record the step
+    pub fn step(&mut self, op: &Op) -> bool {
+        self.case.ops.push(op.clone());
+        self.op_index = self.case.ops.len() - 1;
+        let pre = self.pre_observe(op);
+        let bal0 = self.w.balances_raw();
+        let out = self.w.run(op);
+        if !out.is_minter_step {
+            *self.res.hist.entry(format!("{}:{}:{}", self.vname, op_kind(op), if out.ok { "ok" } else { "err" })).or_insert(0) += 1;
+            return out.ok;
+        }
+        let bal1 = self.w.balances_raw();
+        self.res.steps += 1;
+        let kind = pre.as_ref().map(|p| p.kind).unwrap_or("-");
+        *self.res.hist.entry(format!("{}:{}:{}:{}", self.vname, op_kind(op), kind, if out.ok { "ok" } else { "err" })).or_insert(0) += 1;
+        if let Some(s) = out.coq {
+            self.steps.push(s);
+        }
+        let is_mint = matches!(op, Op::Mint { .. } | Op::MintTo { .. } | Op::MintFor { .. });
+        // actual balance movements of every tracked account and of the supply
+        let mut actual: BTreeMap<(String, String), i128> = BTreeMap::new();
+        for (k, v1) in &bal1 {
+            let v0 = bal0.get(k).copied().unwrap_or(0);
+            if *v1 != v0 {
+                actual.insert(k.clone(), *v1 as i128 - v0 as i128);
+            }
+        }
+        if !out.ok {
+            // Failed calls move no funds (SetWhitelist creates its whitelist outside the call)
+            if !matches!(op, Op::SetWhitelist { .. }) {
+                if !actual.is_empty() {
+                    self.violation("C02:failed-call-moved-funds", format!("{}: {:?} failed but balances moved: {:?}", self.vname, op, actual));
+                }
+                if let Some(e) = &out.err {
+                    if e.starts_with("STATE-CHANGED-ON-FAILURE") {
+                        self.violation("C02:failed-call-changed-state", format!("{}: {:?}: {}", self.vname, op, e));
+                    }
+                }
+            }
+            return false;
+        }
+        if !is_mint {
+            return true;
+        }
+        let Some(p) = pre else {
+            self.violation("C02:mint-without-price", format!("{}: {:?} succeeded although the price in force could not be queried", self.vname, op));
+            return true;
+        };
+        self.res.ok_mints += 1;
+        self.res.distinct.insert(format!("{}|{}|{}|{}|{}|{}", self.vname, p.kind, p.price, p.denom, p.bps, self.case.payment_address));
+        let facts = MintFacts {
+            vname: self.vname.to_string(),
+            kind: p.kind,
+            airdrop: p.airdrop,
+            payer: p.payer.clone(),
+            funds: p.funds.clone(),
+            price: p.price,
+            denom: p.denom.clone(),
+            bps: p.bps,
+            seller: self.seller.clone(),
+            minter: self.w.minter.to_string(),
+        };
+        for (k, w) in judge(&facts, &Split::Vending { featured: self.featured }, &actual, &format!("{:?}", op)) {
+            self.violation(&k, w);
+        }
+        true
+    }
+
+    pub fn finish(mut self) -> (Case, CaseResult) {
+        let coq = case_coq(&mut self.w, &self.init, &self.init_bal, &self.steps);
+        self.res.coq = Some(coq);
+        (self.case, self.res)
+    }
+}
+
+pub fn run_case(c: &Case) -> CaseResult {
+    match Driver::new(c) {
+        Ok(mut d) => {
+            for op in &c.ops {
+                d.step(op);
+            }
+            d.finish().1
+        }
+        Err(_) => {
+            let mut res = CaseResult { coq: None, steps: 0, ok_mints: 0, violations: vec![], hist: BTreeMap::new(), distinct: BTreeSet::new() };
+            *res.hist.entry(format!("{}:create:err", VARIANTS[c.variant].name)).or_insert(0) += 1;
+            res
+        }
+    }
+}
+
+// ---------- payments ----------
+fn other(d: &str) -> &'static str {
+    if d == NATIVE {
+        IBC
+    } else {
+        NATIVE
+    }
+}
+fn sorted(mut v: Vec<(String, u128)>) -> Vec<(String, u128)> {
+    v.sort();
+    v
+}
+fn exact_payment(price: u128, d: &str) -> Vec<(String, u128)> {
+    if price == 0 {
+        vec![]
+    } else {
+        vec![(d.to_string(), price)]
+    }
+}
+/// every way of not paying exactly `price d`
+fn wrong_payments(price: u128, d: &str) -> Vec<Vec<(String, u128)>> {
+    let o = other(d);
+    let mut v: Vec<Vec<(String, u128)>> = vec![];
+    if price == 0 {
+        v.push(vec![(d.to_string(), 1)]); // a coin when the price is 0
+        v.push(vec![(o.to_string(), 1)]);
+        v.push(sorted(vec![(d.to_string(), 1), (o.to_string(), 1)]));
+    } else {
+        if price > 1 {
+            v.push(vec![(d.to_string(), price - 1)]);
+        }
+        v.push(vec![(d.to_string(), price + 1)]);
+        v.push(vec![(o.to_string(), price)]); // right amount, wrong denom
+        v.push(sorted(vec![(d.to_string(), price), (o.to_string(), 1)])); // an extra coin
+        v.push(sorted(vec![(d.to_string(), price), (o.to_string(), price)]));
+        v.push(vec![]); // nothing when the price is > 0
+        v.push(vec![(d.to_string(), price * 2)]);
+    }
+    v
+}
+
+fn bps_pool() -> Vec<u64> {
+    vec![0, 1, 3333, 9999, 10000, 1000, 500, 5000]
+}
+
+fn price_pool(min: u128, lits: &[u128]) -> Vec<u128> {
+    let mut v: Vec<u128> = vec![min, min + 1, 9999, 10000, 10001, 100_000_001, BIG];
+    for l in lits {
+        for x in [l.saturating_sub(1), *l, l + 1] {
+            if x <= BIG {
+                v.push(x);
+            }
+        }
+    }
+    v.retain(|p| *p >= min);
+    v.sort();
+    v.dedup();
+    v
+}
+
+fn literals() -> Vec<u128> {
+    let mut l = harvest_literals(&[
+        "contracts/minters/vending-minter/src/contract.rs",
+        "contracts/minters/vending-minter-featured/src/contract.rs",
+        "contracts/minters/vending-minter-wl-flex/src/contract.rs",
+        "contracts/minters/vending-minter-wl-flex-featured/src/contract.rs",
+        "contracts/minters/vending-minter-merkle-wl/src/contract.rs",
+        "contracts/minters/vending-minter-merkle-wl-featured/src/contract.rs",
+        "packages/sg1/src/lib.rs",
+    ]);
+    l.retain(|x| *x <= BIG);
+    l
+}
+
+// ---------- adaptive generator ----------
+fn sweep(d: &mut Driver, rng: &mut Rng, airdrop: bool, who: &str, n_wrong: usize, do_exact: bool) {
+    let Some((price, dn)) = d.price_in_force(airdrop) else { return };
+    let mk = |d: &Driver, rng: &mut Rng, funds: Vec<(String, u128)>| -> Op {
+        if !airdrop {
+            Op::Mint { who: who.into(), funds }
+        } else if rng.chance(1, 2) {
+            Op::MintTo { who: who.into(), recipient: (*rng.pick(&[BUYERS[0], BUYERS[1], STRANGER])).into(), funds }
+        } else {
+            let pos = d.w.positions();
+            let id = if pos.is_empty() || rng.chance(1, 12) { 0 } else { pos[rng.below(pos.len() as u64) as usize].1 };
+            Op::MintFor { who: who.into(), token_id: id, recipient: (*rng.pick(&[BUYERS[0], BUYERS[2]])).into(), funds }
+        }
+    };
+    let wrong = wrong_payments(price, &dn);
+    for _ in 0..n_wrong {
+        let f = rng.pick(&wrong).clone();
+        let op = mk(d, rng, f);
+        d.step(&op);
+    }
+    if do_exact {
+        let op = mk(d, rng, exact_payment(price, &dn));
+        d.step(&op);
+    }
+}
+
+fn gen_case(rng: &mut Rng, variant: usize, thorough: bool, lits: &[u128]) -> (Case, CaseResult) {
+    let min_price = *rng.pick(&[0u128, 0, 1, 50, 50, 9999, 10000, 100_000_000, BIG - 1]);
+    let pool = price_pool(min_price, lits);
+    let base: Vec<u128> = vec![min_price, min_price + 1, 9999, 10000, 10001, 100_000_001, BIG].into_iter().filter(|p| *p >= min_price).collect();
+    let price = if rng.chance(3, 4) { *rng.pick(&base) } else { *rng.pick(&pool) };
+    let wl = rng.chance(2, 5);
+    let c = Case {
+        variant,
+        ibc: rng.chance(1, 3),
+        min_price,
+        price,
+        mint_fee_bps: *rng.pick(&bps_pool()),
+        airdrop_price: *rng.pick(&[0u128, 0, 1, 100, 9999, 10001, 100_000_001, BIG]),
+        airdrop_fee_bps: *rng.pick(&bps_pool()),
+        payment_address: rng.chance(1, 2),
+        wl,
+        wl_price: *rng.pick(&[0u128, 1, min_price, price.saturating_sub(1).max(1), 60, 10001, BIG]),
+        ops: vec![],
+    };
+    let mut d = match Driver::new(&c) {
+        Ok(d) => d,
+        Err(_) => {
+            let r = run_case(&c);
+            return (c, r);
+        }
+    };
+    // sometimes pre-fund the minter through the recorded defect (an airdrop whose whole price is
+    // stranded), so that a later over-disbursement has something to pay from
+    if rng.chance(1, 3) {
+        d.step(&Op::SudoParams { min_price: None, mint_fee_bps: None, airdrop_price: Some(*rng.pick(&[100_000_001u128, BIG])), airdrop_fee_bps: Some(0), offset: None, max_pal: None, shuffle_fee: None });
+        sweep(&mut d, rng, true, CREATOR, 0, true);
+        d.step(&Op::SudoParams { min_price: None, mint_fee_bps: None, airdrop_price: Some(c.airdrop_price), airdrop_fee_bps: Some(c.airdrop_fee_bps), offset: None, max_pal: None, shuffle_fee: None });
+    }
+    let h13 = 13 * 3600;
+    let phases: [(u64, &str); 4] = [(500, "pre"), (1500, "wl"), (3100, "public"), (3100 + h13, "late")];
+    let rounds = if thorough { 3 } else { 2 };
+    let mut t_extra = 0u64;
+    for (secs, phase) in phases {
+        d.step(&Op::At { secs: secs + t_extra, nanos: rng.below(1000) as i64 });
+        let started = phase == "public" || phase == "late";
+        for _ in 0..rounds {
+            // governance moves the fee schedule / airdrop price
+            if rng.chance(2, 5) {
+                d.step(&Op::SudoParams {
+                    min_price: None,
+                    mint_fee_bps: if rng.chance(1, 2) { Some(*rng.pick(&bps_pool())) } else { None },
+                    airdrop_price: if rng.chance(1, 2) { Some(*rng.pick(&[0u128, 1, 100, 9999, 10001, 100_000_001, BIG])) } else { None },
+                    airdrop_fee_bps: if rng.chance(1, 2) { Some(*rng.pick(&bps_pool())) } else { None },
+                    offset: None,
+                    max_pal: None,
+                    shuffle_fee: None,
+                });
+            }
+            // the creator moves the price / discount
+            if rng.chance(1, 4) {
+                let cur: u128 = d.w.minter_config()["mint_price"]["amount"].as_str().unwrap().parse().unwrap();
+                let p = if started {
+                    if cur > min_price { *rng.pick(&[cur - 1, min_price, min_price + (cur - min_price) / 2]) } else { cur }
+                } else {
+                    *rng.pick(&pool)
+                };
+                d.step(&Op::UpdateMintPrice { who: CREATOR.into(), price: p });
+            }
+            if started && rng.chance(1, 3) {
+                let cur: u128 = d.w.minter_config()["mint_price"]["amount"].as_str().unwrap().parse().unwrap();
+                if d.w.minter_config()["discount_price"].get("amount").is_some() && rng.chance(1, 2) {
+                    t_extra += 3700;
+                    d.step(&Op::At { secs: secs + t_extra, nanos: 0 });
+                    d.step(&Op::RemoveDiscountPrice { who: CREATOR.into() });
+                } else {
+                    let p = *rng.pick(&[min_price, cur, cur.saturating_sub(1).max(min_price), min_price + (cur - min_price) / 2]);
+                    d.step(&Op::UpdateDiscountPrice { who: CREATOR.into(), price: p });
+                }
+            }
+            // a mint of some kind with its payment sweep
+            let airdrop = if started || (phase == "wl" && c.wl) { rng.chance(1, 3) } else { rng.chance(4, 5) };
+            let who: &str = if airdrop {
+                if rng.chance(11, 12) { CREATOR } else { BUYERS[0] }
+            } else if phase == "wl" && c.wl {
+                *rng.pick(&[BUYERS[0], BUYERS[1], BUYERS[0], BUYERS[1], STRANGER])
+            } else {
+                *rng.pick(&[BUYERS[0], BUYERS[1], BUYERS[2], STRANGER, CREATOR])
+            };
+            let n_wrong = rng.range(1, 3) as usize;
+            let do_exact = rng.chance(9, 10);
+            sweep(&mut d, rng, airdrop, who, n_wrong, do_exact);
+        }
+    }
+    d.finish()
+}
+
+// ---------- corpus ----------
+fn sudo(mint_fee_bps: Option<u64>, airdrop_price: Option<u128>, airdrop_fee_bps: Option<u64>) -> Op {
+    Op::SudoParams { min_price: None, mint_fee_bps, airdrop_price, airdrop_fee_bps, offset: None, max_pal: None, shuffle_fee: None }
+}
+fn base_case(variant: usize) -> Case {
+    Case { variant, ibc: false, min_price: 50, price: 100, mint_fee_bps: 1000, airdrop_price: 0, airdrop_fee_bps: 10000, payment_address: false, wl: false, wl_price: 60, ops: vec![] }
+}
+fn mint(who: &str, funds: Vec<(String, u128)>) -> Op {
+    Op::Mint { who: who.into(), funds }
+}
+fn mint_to(who: &str, funds: Vec<(String, u128)>) -> Op {
+    Op::MintTo { who: who.into(), recipient: BUYERS[2].into(), funds }
+}
+fn n(a: u128) -> Vec<(String, u128)> {
+    vec![(NATIVE.to_string(), a)]
+}
+fn i(a: u128) -> Vec<(String, u128)> {
+    vec![(IBC.to_string(), a)]
+}
+
+/// curated minimal histories (always first); the first one per variant is the replay of the
+/// recorded finding (DESIGN §8 D6)
+fn corpus() -> Vec<Case> {
+    let mut v = vec![];
+    for variant in 0..6 {
+        // D6: airdrop price 100, airdrop fee 50 %: payer -100, fee recipients +50, minter 0 -> 50;
+        // then a public mint pays out exactly its own price (the stranded 100 stay put)
+        v.push(Case {
+            ops: vec![
+                sudo(None, Some(100), Some(5000)),
+                mint_to(CREATOR, n(100)),
+                Op::MintFor { who: CREATOR.into(), token_id: 7, recipient: BUYERS[0].into(), funds: n(100) },
+                mint_to(CREATOR, n(99)),
+                mint_to(CREATOR, vec![]),
+                mint_to(BUYERS[0], n(100)),
+                Op::At { secs: 3100, nanos: 0 },
+                mint(BUYERS[0], n(100)),
+                // outside the known class: fee = whole price, price = 0
+                sudo(None, Some(100), Some(10000)),
+                mint_to(CREATOR, n(100)),
+                sudo(None, Some(0), Some(5000)),
+                mint_to(CREATOR, vec![]),
+                mint_to(CREATOR, n(1)),
+            ],
+            ..base_case(variant)
+        });
+        // the payment sweep on a public mint, price 101 (not a multiple of anything), payment address set
+        v.push(Case {
+            price: 101,
+            payment_address: true,
+            ops: {
+                let mut o = vec![Op::At { secs: 3100, nanos: 0 }];
+                for f in wrong_payments(101, NATIVE) {
+                    o.push(mint(BUYERS[0], f));
+                }
+                o.push(mint(BUYERS[0], n(101)));
+                o.push(mint(CREATOR, n(101)));
+                o
+            },
+            ..base_case(variant)
+        });
+        // fee boundaries through governance: fee 0 (0 bps), fee 1 (the DAO share 0 makes the bank reject
+        // the whole mint), fee 2, fee = price (10000 bps: the seller gets nothing), fee = price - 1
+        v.push(Case {
+            price: 10000,
+            ops: vec![
+                Op::At { secs: 3100, nanos: 0 },
+                sudo(Some(0), None, None),
+                mint(BUYERS[0], n(10000)),
+                sudo(Some(1), None, None),
+                mint(BUYERS[0], n(10000)),
+                sudo(Some(2), None, None),
+                mint(BUYERS[0], n(10000)),
+                sudo(Some(10000), None, None),
+                mint(BUYERS[0], n(10000)),
+                sudo(Some(9999), None, None),
+                mint(BUYERS[1], n(10000)),
+                sudo(Some(3333), None, None),
+                mint(BUYERS[1], n(10000)),
+                mint(BUYERS[1], n(9999)),
+                mint(BUYERS[1], n(10001)),
+                // airdrop fee rate differs from the mint fee rate
+                sudo(Some(500), Some(10001), Some(10000)),
+                mint_to(CREATOR, n(10001)),
+                mint(BUYERS[2], n(10000)),
+            ],
+            ..base_case(variant)
+        });
+        // zero price: nothing must be attached; a coin is rejected; a zero coin cannot be attached
+        v.push(Case {
+            min_price: 0,
+            price: 0,
+            payment_address: true,
+            ops: vec![
+                Op::At { secs: 3100, nanos: 0 },
+                mint(BUYERS[0], n(1)),
+                mint(BUYERS[0], i(1)),
+                mint(BUYERS[0], n(0)),
+                mint(BUYERS[0], vec![]),
+                mint_to(CREATOR, vec![]),
+                mint_to(CREATOR, n(1)),
+            ],
+            ..base_case(variant)
+        });
+        // price 1 (fee 0 at every rate below 10000; fee 1 at 10000 bps => the mint fails)
+        v.push(Case {
+            min_price: 1,
+            price: 1,
+            ops: vec![
+                Op::At { secs: 3100, nanos: 0 },
+                mint(BUYERS[0], vec![]),
+                mint(BUYERS[0], n(2)),
+                mint(BUYERS[0], n(1)),
+                sudo(Some(10000), None, None),
+                mint(BUYERS[0], n(1)),
+                sudo(Some(9999), None, None),
+                mint(BUYERS[0], n(1)),
+            ],
+            ..base_case(variant)
+        });
+        // whitelist price, then public price, then discount, then discount removed
+        v.push(Case {
+            wl: true,
+            wl_price: 60,
+            payment_address: variant % 2 == 0,
+            ops: vec![
+                Op::At { secs: 1500, nanos: 0 },
+                mint(BUYERS[0], n(100)),
+                mint(BUYERS[0], n(59)),
+                mint(BUYERS[0], n(61)),
+                mint(BUYERS[0], i(60)),
+                mint(BUYERS[0], n(60)),
+                mint(STRANGER, n(60)),
+                mint(BUYERS[1], n(60)),
+                Op::At { secs: 3100, nanos: 0 },
+                mint(BUYERS[0], n(60)),
+                mint(BUYERS[0], n(100)),
+                Op::UpdateDiscountPrice { who: CREATOR.into(), price: 80 },
+                mint(BUYERS[1], n(100)),
+                mint(BUYERS[1], n(79)),
+                mint(BUYERS[1], n(80)),
+                Op::At { secs: 3100 + 3700, nanos: 0 },
+                Op::RemoveDiscountPrice { who: CREATOR.into() },
+                mint(BUYERS[2], n(80)),
+                mint(BUYERS[2], n(100)),
+                Op::UpdateMintPrice { who: CREATOR.into(), price: 70 },
+                mint(BUYERS[2], n(100)),
+                mint(BUYERS[2], n(70)),
+            ],
+            ..base_case(variant)
+        });
+        // free whitelist on a priced sale
+        v.push(Case {
+            wl: true,
+            wl_price: 0,
+            ops: vec![
+                Op::At { secs: 1500, nanos: 0 },
+                mint(BUYERS[0], n(100)),
+                mint(BUYERS[0], n(1)),
+                mint(BUYERS[0], vec![]),
+                Op::At { secs: 3100, nanos: 0 },
+                mint(BUYERS[0], vec![]),
+                mint(BUYERS[0], n(100)),
+            ],
+            ..base_case(variant)
+        });
+        // a minter that holds coins (stranded by the recorded defect): every later mint must still
+        // pay out exactly its own price, and a payment in the wrong denom must still be rejected
+        v.push(Case {
+            payment_address: true,
+            ops: vec![
+                sudo(None, Some(100_000_001), Some(0)),
+                mint_to(CREATOR, n(100_000_001)),
+                sudo(None, Some(0), Some(10000)),
+                Op::At { secs: 3100, nanos: 0 },
+                mint(BUYERS[0], i(100)),
+                mint(BUYERS[0], n(101)),
+                mint(BUYERS[0], n(99)),
+                mint(BUYERS[0], vec![]),
+                mint(BUYERS[0], sorted(vec![(NATIVE.to_string(), 100), (IBC.to_string(), 100)])),
+                mint(BUYERS[0], n(100)),
+                mint_to(CREATOR, i(1)),
+                mint_to(CREATOR, vec![]),
+                sudo(Some(3333), Some(50), Some(1)),
+                mint_to(CREATOR, i(50)),
+                mint_to(CREATOR, n(50)),
+                mint(BUYERS[1], n(100)),
+            ],
+            ..base_case(variant)
+        });
+        // IBC-denominated sale: price and fees in the IBC denom; the airdrop price stays native
+        v.push(Case {
+            ibc: true,
+            price: 10001,
+            mint_fee_bps: 3333,
+            payment_address: variant % 2 == 1,
+            ops: vec![
+                Op::At { secs: 3100, nanos: 0 },
+                mint(BUYERS[0], n(10001)),
+                mint(BUYERS[0], i(10000)),
+                mint(BUYERS[0], i(10001)),
+                sudo(None, Some(9999), Some(10000)),
+                mint_to(CREATOR, i(9999)),
+                mint_to(CREATOR, n(9999)),
+            ],
+            ..base_case(variant)
+        });
+        // very large price
+        v.push(Case {
+            min_price: BIG - 1,
+            price: BIG,
+            mint_fee_bps: 9999,
+            ops: vec![
+                Op::At { secs: 3100, nanos: 0 },
+                mint(BUYERS[0], n(BIG - 1)),
+                mint(BUYERS[0], n(BIG + 1)),
+                mint(BUYERS[0], n(BIG)),
+                sudo(Some(3333), Some(BIG), Some(10000)),
+                mint_to(CREATOR, n(BIG)),
+                mint(BUYERS[0], n(BIG)),
+            ],
+            ..base_case(variant)
+        });
+    }
+    v
+}
+
+// ---------- shrinking ----------
+/// the shortest prefix that still shows the violation, then greedy removal of earlier ops
+fn shrink(c: &Case, key: &str, at: usize) -> Case {
+    let mut best = Case { ops: c.ops[..=at.min(c.ops.len() - 1)].to_vec(), ..c.clone() };
+    let shows = |cand: &Case| run_case(cand).violations.iter().any(|v| v.0 == key);
+    if !shows(&best) {
+        return c.clone();
+    }
+    let mut budget = 60;
+    let mut k = 0;
+    while k + 1 < best.ops.len() && budget > 0 {
+        let mut cand = best.clone();
+        cand.ops.remove(k);
+        budget -= 1;
+        if shows(&cand) {
+            best = cand;
+        } else {
+            k += 1;
+        }
+    }
+    best
+}
+
+// =====================================================================================
+// Part 2: the three open-edition minters and the base minter (oe_world.rs, SaleOeCorr.v).
+// Same monitors; the documented split differs (developer share; fair burn on the base
+// minter) and the seller is paid on airdrops too, so there is no known class here.
+// =====================================================================================
+#[derive(Clone, Debug, Serialize, Deserialize)]
+pub enum Case2 {
+    Oe { cfg: OeCfg, ops: Vec<OeOp> },
+    Base { cfg: BaseCfg, ops: Vec<OeOp> },
+}
+
+fn new_result() -> CaseResult {
+    CaseResult { coq: None, steps: 0, ok_mints: 0, violations: vec![], hist: BTreeMap::new(), distinct: BTreeSet::new() }
+}
+
+pub struct OeDriver {
+    pub w: OeWorld,
+    pub ops: Vec<OeOp>,
+    vname: &'static str,
+    seller: String,
+    init: String,
+    init_bal: String,
+    steps: Vec<String>,
+    pub res: CaseResult,
+}
+
+impl OeDriver {
+    pub fn new(cfg: &OeCfg) -> Result<OeDriver, String> {
+        let mut w = OeWorld::new(cfg.clone())?;
+        for a in [CREATOR, BUYERS[0], BUYERS[1], BUYERS[2], STRANGER] {
+            for d in [NATIVE, IBC] {
+                chain::mint_coins(&mut w.app, a, FUND, d);
+            }
+        }
+        for d in [NATIVE, IBC] {
+            w.initial_supply.insert(d.to_string(), chain::supply(&w.app, d));
+        }
+        let init = w.init_state_coq();
+        let init_bal = w.balances_coq();
+        let vname = OE_VARIANTS[cfg.variant].name;
+        Ok(OeDriver { w, ops: vec![], vname, seller: if cfg.payment_address { PAYADDR.into() } else { CREATOR.into() }, init, init_bal, steps: vec![], res: new_result() })
+    }
+    pub fn price_in_force(&self, airdrop: bool) -> Option<(u128, String)> {
+        if airdrop {
+            amount_of(&self.w.factory_params()["extension"]["airdrop_mint_price"])
+        } else {
+            let mp = self.w.app.wrap().query_wasm_smart::<Value>(self.w.minter.clone(), &serde_json::json!({"mint_price": {}})).ok()?;
+            amount_of(&mp["current_price"])
+        }
+    }
+    fn whitelist_active(&self) -> bool {
+        match self.w.minter_config()["whitelist"].as_str() {
+            Some(a) => self
+                .w
+                .app
+                .wrap()
+                .query_wasm_smart::<Value>(a.to_string(), &serde_json::json!({"config": {}}))
+                .ok()
+                .and_then(|v| v["is_active"].as_bool())
+                .unwrap_or(false),
+            None => false,
+        }
+    }
+    fn violation(&mut self, key: &str, what: String) {
+        if self.res.violations.len() < 8 {
+            let at = self.ops.len() - 1;
+            self.res.violations.push((key.to_string(), what, at));
+        }
+    }
+    pub fn step(&mut self, op: &OeOp) -> bool {
+        self.ops.push(op.clone());
+        let mint = match op {
+            OeOp::Mint { who, funds } | OeOp::MintM { who, funds, .. } => Some((false, who.clone(), funds.clone())),
+            OeOp::MintTo { who, funds, .. } => Some((true, who.clone(), funds.clone())),
+            _ => None,
+        };
+        let pre = mint.as_ref().and_then(|(airdrop, _, _)| {
+            let (price, denom) = self.price_in_force(*airdrop)?;
+            let fp = self.w.factory_params();
+            let bps = if *airdrop { fp["extension"]["airdrop_mint_fee_bps"].as_u64()? } else { fp["mint_fee_bps"].as_u64()? };
+            let dev = fp["extension"]["dev_fee_address"].as_str()?.to_string();
+            let kind = if *airdrop {
+                "airdrop"
+            } else if self.whitelist_active() {
+                "whitelist"
+            } else {
+                "public"
+            };
+            Some((price, denom, bps, dev, kind))
+        });
+        let bal0 = self.w.balances_raw();
+        let out = self.w.run(op);
+        if !out.is_minter_step {
+            *self.res.hist.entry(format!("{}:{}:{}", self.vname, oe_op_kind(op), if out.ok { "ok" } else { "err" })).or_insert(0) += 1;
+            return out.ok;
+        }
+        let bal1 = self.w.balances_raw();
+        self.res.steps += 1;
+        let kind = pre.as_ref().map(|p| p.4).unwrap_or("-");
+        *self.res.hist.entry(format!("{}:{}:{}:{}", self.vname, oe_op_kind(op), kind, if out.ok { "ok" } else { "err" })).or_insert(0) += 1;
+        if let Some(s) = out.coq {
+            self.steps.push(s);
+        }
+        let actual = deltas(&bal0, &bal1);
+        if !out.ok {
+            if !actual.is_empty() {
+                self.violation("C02:failed-call-moved-funds", format!("{}: {:?} failed but balances moved: {:?}", self.vname, op, actual));
+            }
+            if let Some(e) = &out.err {
+                if e.starts_with("STATE-CHANGED-ON-FAILURE") {
+                    self.violation("C02:failed-call-changed-state", format!("{}: {:?}: {}", self.vname, op, e));
+                }
+            }
+            return false;
+        }
+        let Some((airdrop, payer, funds)) = mint else { return true };
+        let Some((price, denom, bps, dev, kind)) = pre else {
+            self.violation("C02:mint-without-price", format!("{}: {:?} succeeded although the price in force could not be queried", self.vname, op));
+            return true;
+        };
+        self.res.ok_mints += 1;
+        self.res.distinct.insert(format!("{}|{}|{}|{}|{}|{}", self.vname, kind, price, denom, bps, self.seller));
+        let facts = MintFacts { vname: self.vname.to_string(), kind, airdrop, payer, funds, price, denom, bps, seller: self.seller.clone(), minter: self.w.minter.to_string() };
+        for (k, w) in judge(&facts, &Split::Oe { dev }, &actual, &format!("{:?}", op)) {
+            self.violation(&k, w);
+        }
+        true
+    }
+    pub fn finish(mut self) -> (Vec<OeOp>, CaseResult) {
+        let coq = self.w.case_coq(&self.init, &self.init_bal, &self.steps);
+        self.res.coq = Some(coq);
+        (self.ops, self.res)
+    }
+}
+
+pub struct BaseDriver {
+    pub w: BaseWorld,
+    pub ops: Vec<OeOp>,
+    init: String,
+    init_bal: String,
+    steps: Vec<String>,
+    pub res: CaseResult,
+}
+impl BaseDriver {
+    pub fn new(cfg: &BaseCfg) -> Result<BaseDriver, String> {
+        let mut w = BaseWorld::new(cfg.clone())?;
+        for a in [CREATOR, BUYERS[0], STRANGER] {
+            chain::mint_coins(&mut w.app, a, FUND, NATIVE);
+            chain::mint_coins(&mut w.app, a, FUND, IBC);
+        }
+        for d in [NATIVE, IBC] {
+            w.initial_supply.insert(d.to_string(), chain::supply(&w.app, d));
+        }
+        let init = w.init_state_coq();
+        let init_bal = w.balances_coq();
+        Ok(BaseDriver { w, ops: vec![], init, init_bal, steps: vec![], res: new_result() })
+    }
+    /// the amount in force: floor(config mint price * factory mint_fee_bps / 10000) ustars
+    pub fn price_in_force(&self) -> u128 {
+        self.w.config_price() * self.w.fee_bps() as u128 / 10_000
+    }
+    fn violation(&mut self, key: &str, what: String) {
+        if self.res.violations.len() < 8 {
+            let at = self.ops.len() - 1;
+            self.res.violations.push((key.to_string(), what, at));
+        }
+    }
+    pub fn step(&mut self, op: &OeOp) -> bool {
+        self.ops.push(op.clone());
+        let price = self.price_in_force();
+        let bps = self.w.fee_bps();
+        let bal0 = self.w.balances_raw();
+        let out = self.w.run(op);
+        if !out.is_minter_step {
+            *self.res.hist.entry(format!("base-minter:{}:{}", oe_op_kind(op), if out.ok { "ok" } else { "err" })).or_insert(0) += 1;
+            return out.ok;
+        }
+        let bal1 = self.w.balances_raw();
+        self.res.steps += 1;
+        *self.res.hist.entry(format!("base-minter:{}:{}", oe_op_kind(op), if out.ok { "ok" } else { "err" })).or_insert(0) += 1;
+        if let Some(s) = out.coq {
+            self.steps.push(s);
+        }
+        let actual = deltas(&bal0, &bal1);
+        if !out.ok {
+            if !actual.is_empty() {
+                self.violation("C02:failed-call-moved-funds", format!("base-minter: {:?} failed but balances moved: {:?}", op, actual));
+            }
+            return false;
+        }
+        if let OeOp::BaseMint { who, funds, .. } = op {
+            self.res.ok_mints += 1;
+            self.res.distinct.insert(format!("base-minter|{}|{}", price, bps));
+            let facts = MintFacts {
+                vname: "base-minter".into(),
+                kind: "base",
+                airdrop: false,
+                payer: who.clone(),
+                funds: funds.clone(),
+                price,
+                denom: NATIVE.into(),
+                bps,
+                seller: who.clone(),
+                minter: self.w.minter.to_string(),
+            };
+            // a base mint is never free: a zero amount in force must make the mint fail
+            if price == 0 {
+                self.violation("C02:base-mint-at-zero-fee", format!("base-minter: {:?} succeeded although the amount in force is 0", op));
+            }
+            for (k, w) in judge(&facts, &Split::Base, &actual, &format!("{:?}", op)) {
+                self.violation(&k, w);
+            }
+        }
+        true
+    }
+    pub fn finish(mut self) -> (Vec<OeOp>, CaseResult) {
+        let coq = self.w.case_coq(&self.init, &self.init_bal, &self.steps);
+        self.res.coq = Some(coq);
+        (self.ops, self.res)
+    }
+}
+
+pub fn run_case2(c: &Case2) -> CaseResult {
+    match c {
+        Case2::Oe { cfg, ops } => match OeDriver::new(cfg) {
+            Ok(mut d) => {
+                for op in ops {
+                    d.step(op);
+                }
+                d.finish().1
+            }
+            Err(_) => {
+                let mut r = new_result();
+                *r.hist.entry(format!("{}:create:err", OE_VARIANTS[cfg.variant].name)).or_insert(0) += 1;
+                r
+            }
+        },
+        Case2::Base { cfg, ops } => match BaseDriver::new(cfg) {
+            Ok(mut d) => {
+                for op in ops {
+                    d.step(op);
+                }
+                d.finish().1
+            }
+            Err(_) => {
+                let mut r = new_result();
+                *r.hist.entry("base-minter:create:err".to_string()).or_insert(0) += 1;
+                r
+            }
+        },
+    }
+}
+
+fn oe_sudo(mint_fee_bps: Option<u64>, airdrop_price: Option<u128>, airdrop_fee_bps: Option<u64>) -> OeOp {
+    OeOp::SudoParams { min_price: None, mint_fee_bps, airdrop_price, airdrop_fee_bps, offset: None, max_pal: None, max_token_limit: None, dev: None }
+}
+
+fn oe_sweep(d: &mut OeDriver, rng: &mut Rng, airdrop: bool, who: &str, n_wrong: usize, do_exact: bool) {
+    let Some((price, dn)) = d.price_in_force(airdrop) else { return };
+    let mk = |rng: &mut Rng, funds: Vec<(String, u128)>| -> OeOp {
+        if airdrop {
+            OeOp::MintTo { who: who.into(), recipient: (*rng.pick(&[BUYERS[0], BUYERS[1], STRANGER])).into(), funds }
+        } else {
+            OeOp::Mint { who: who.into(), funds }
+        }
+    };
+    let wrong = wrong_payments(price, &dn);
+    for _ in 0..n_wrong {
+        let f = rng.pick(&wrong).clone();
+        let op = mk(rng, f);
+        d.step(&op);
+    }
+    if do_exact {
+        let op = mk(rng, exact_payment(price, &dn));
+        d.step(&op);
+    }
+}
+
+fn oe_cfg(variant: usize) -> OeCfg {
+    let v = OE_VARIANTS[variant];
+    let mut cfg = OeCfg::basic(variant);
+    cfg.fp.max_per_address = 50;
+    cfg.fp.max_token_limit = 200;
+    cfg.num_tokens = Some(60);
+    cfg.end_in_secs = Some(400_000);
+    cfg.pal = 20;
+    cfg.start_in_secs = 3000;
+    cfg.wl_windows = vec![(1000, 2000)];
+    cfg.wl_limit = 20;
+    cfg.wl_flex_count = 20;
+    cfg.wl = OeWl::None;
+    let _ = v;
+    cfg
+}
+fn oe_wl_kind(variant: usize) -> OeWl {
+    let v = OE_VARIANTS[variant];
+    if v.flex {
+        OeWl::Flex
+    } else if v.merkle {
+        OeWl::Merkle
+    } else {
+        OeWl::Plain
+    }
+}
+
+fn gen_oe(rng: &mut Rng, variant: usize, thorough: bool, lits: &[u128]) -> (Case2, CaseResult) {
+    let mut cfg = oe_cfg(variant);
+    let capped = rng.chance(2, 3);
+    let min_price = *rng.pick(&[0u128, 1, 50, 50, 9999, 10000, 100_000_000, BIG - 1]);
+    let pool = price_pool(min_price, lits);
+    let base: Vec<u128> = vec![min_price, min_price + 1, 9999, 10000, 10001, 100_000_001, BIG].into_iter().filter(|p| *p >= min_price).collect();
+    let mut price = if rng.chance(3, 4) { *rng.pick(&base) } else { *rng.pick(&pool) };
+    let mut airdrop_price = *rng.pick(&[0u128, 1, 40, 100, 9999, 10001, 100_000_001, BIG]);
+    if !capped {
+        // an uncapped open edition cannot be free
+        cfg.num_tokens = None;
+        price = price.max(1);
+        airdrop_price = airdrop_price.max(1);
+    }
+    cfg.fp.min_price = min_price;
+    cfg.fp.denom = if rng.chance(1, 3) { IBC.into() } else { NATIVE.into() };
+    cfg.fp.mint_fee_bps = *rng.pick(&bps_pool());
+    cfg.fp.airdrop_price = airdrop_price;
+    cfg.fp.airdrop_fee_bps = *rng.pick(&bps_pool());
+    cfg.price = price;
+    cfg.payment_address = rng.chance(1, 2);
+    let wl = rng.chance(2, 5);
+    if wl {
+        cfg.wl = oe_wl_kind(variant);
+        cfg.wl_price = *rng.pick(&[0u128, 1, min_price, price.saturating_sub(1).max(1), 60, 10001, BIG]);
+    }
+    let mut d = match OeDriver::new(&cfg) {
+        Ok(d) => d,
+        Err(_) => {
+            let c = Case2::Oe { cfg, ops: vec![] };
+            let r = run_case2(&c);
+            return (c, r);
+        }
+    };
+    let h13 = 13 * 3600;
+    let phases: [(u64, &str); 4] = [(500, "pre"), (1500, "wl"), (3100, "public"), (3100 + h13, "late")];
+    let rounds = if thorough { 3 } else { 2 };
+    for (secs, phase) in phases {
+        d.step(&OeOp::At { secs, nanos: rng.below(1000) as i64 });
+        let started = phase == "public" || phase == "late";
+        for _ in 0..rounds {
+            if rng.chance(2, 5) {
+                let floor = if capped { 0u128 } else { 1 };
+                d.step(&oe_sudo(
+                    if rng.chance(1, 2) { Some(*rng.pick(&bps_pool())) } else { None },
+                    if rng.chance(1, 2) { Some((*rng.pick(&[0u128, 1, 100, 9999, 10001, 100_000_001, BIG])).max(floor)) } else { None },
+                    if rng.chance(1, 2) { Some(*rng.pick(&bps_pool())) } else { None },
+                ));
+            }
+            if rng.chance(1, 4) {
+                let cur: u128 = d.w.minter_config()["mint_price"]["amount"].as_str().unwrap().parse().unwrap();
+                let p = if started {
+                    if cur > min_price { *rng.pick(&[cur - 1, min_price, min_price + (cur - min_price) / 2]) } else { cur }
+                } else {
+                    *rng.pick(&pool)
+                };
+                d.step(&OeOp::UpdateMintPrice { who: CREATOR.into(), price: p });
+            }
+            let airdrop = if started || (phase == "wl" && wl) { rng.chance(1, 3) } else { rng.chance(4, 5) };
+            let who: &str = if airdrop {
+                if rng.chance(11, 12) { CREATOR } else { BUYERS[0] }
+            } else if phase == "wl" && wl {
+                *rng.pick(&[BUYERS[0], BUYERS[1], BUYERS[0], BUYERS[1], STRANGER])
+            } else {
+                *rng.pick(&[BUYERS[0], BUYERS[1], BUYERS[2], STRANGER, CREATOR])
+            };
+            let n_wrong = rng.range(1, 3) as usize;
+            let do_exact = rng.chance(9, 10);
+            oe_sweep(&mut d, rng, airdrop, who, n_wrong, do_exact);
+        }
+    }
+    let (ops, r) = d.finish();
+    (Case2::Oe { cfg, ops }, r)
+}
+
+const URI: &str = "ipfs://bafybeigi3bwpvyvsmnbj46ra4hyffcxdeaj6ntfk5jpic5mx27x6ih2qvq/1.json";
+
+fn base_sweep(d: &mut BaseDriver, rng: &mut Rng, who: &str, n_wrong: usize, do_exact: bool) {
+    let fee = d.price_in_force();
+    let wrong = wrong_payments(fee, NATIVE);
+    for _ in 0..n_wrong {
+        let f = rng.pick(&wrong).clone();
+        d.step(&OeOp::BaseMint { who: who.into(), uri: URI.into(), funds: f });
+    }
+    if do_exact {
+        d.step(&OeOp::BaseMint { who: who.into(), uri: URI.into(), funds: exact_payment(fee, NATIVE) });
+    }
+}
+
+fn gen_base(rng: &mut Rng, thorough: bool) -> (Case2, CaseResult) {
+    let cfg = BaseCfg {
+        min_price: *rng.pick(&[0u128, 1, 3, 1000, 9999, 10000, 10001, 100_000_001, BIG]),
+        mint_fee_bps: *rng.pick(&bps_pool()),
+        ..BaseCfg::default()
+    };
+    let mut d = match BaseDriver::new(&cfg) {
+        Ok(d) => d,
+        Err(_) => {
+            let c = Case2::Base { cfg, ops: vec![] };
+            let r = run_case2(&c);
+            return (c, r);
+        }
+    };
+    let rounds = if thorough { 8 } else { 5 };
+    for k in 0..rounds {
+        d.step(&OeOp::At { secs: 100 + k as u64, nanos: 0 });
+        if rng.chance(1, 2) {
+            d.step(&OeOp::BaseSudoParams {
+                min_price: if rng.chance(1, 3) { Some(*rng.pick(&[1u128, 500, 10001])) } else { None },
+                mint_fee_bps: Some(*rng.pick(&[0u64, 1, 2, 3, 20, 3333, 9999, 10000, 1000, 5000])),
+            });
+        }
+        let who = if rng.chance(9, 10) { CREATOR } else { STRANGER };
+        let nw = rng.range(1, 3) as usize;
+        let ex = rng.chance(9, 10);
+        base_sweep(&mut d, rng, who, nw, ex);
+    }
+    let (ops, r) = d.finish();
+    (Case2::Base { cfg, ops }, r)
+}
+
+/// curated open-edition / base histories
+fn corpus2() -> Vec<Case2> {
+    let mut v = vec![];
+    let omint = |who: &str, funds: Vec<(String, u128)>| OeOp::Mint { who: who.into(), funds };
+    let omint_to = |who: &str, funds: Vec<(String, u128)>| OeOp::MintTo { who: who.into(), recipient: BUYERS[2].into(), funds };
+    for variant in 0..3 {
+        // the history that strands coins on the vending family pays the seller here:
+        // airdrop price 100, airdrop fee 50 %: developer 25, DAOs 5 + 20, seller 50, minter 0
+        let mut cfg = oe_cfg(variant);
+        cfg.fp.airdrop_price = 100;
+        cfg.fp.airdrop_fee_bps = 5000;
+        cfg.payment_address = true;
+        v.push(Case2::Oe {
+            cfg,
+            ops: vec![
+                omint_to(CREATOR, n(100)),
+                omint_to(CREATOR, n(99)),
+                omint_to(CREATOR, n(101)),
+                omint_to(CREATOR, i(100)),
+                omint_to(CREATOR, vec![]),
+                omint_to(BUYERS[0], n(100)),
+                OeOp::At { secs: 3100, nanos: 0 },
+                omint(BUYERS[0], n(100)),
+                omint(BUYERS[0], n(101)),
+                omint(BUYERS[0], n(99)),
+                omint(BUYERS[0], sorted(vec![(NATIVE.to_string(), 100), (IBC.to_string(), 1)])),
+                omint(CREATOR, n(100)),
+            ],
+        });
+        // fee boundaries: 0, 1..3 (a zero DAO share makes the bank reject the mint), 4, = price
+        let mut cfg = oe_cfg(variant);
+        cfg.price = 10000;
+        v.push(Case2::Oe {
+            cfg,
+            ops: {
+                let mut o = vec![OeOp::At { secs: 3100, nanos: 0 }];
+                for bps in [0u64, 1, 2, 3, 4, 5, 3333, 9999, 10000] {
+                    o.push(oe_sudo(Some(bps), None, None));
+                    o.push(omint(BUYERS[(bps % 3) as usize], n(10000)));
+                }
+                o.push(omint(BUYERS[0], n(9999)));
+                o.push(omint(BUYERS[0], n(10001)));
+                o
+            },
+        });
+        // whitelist price then public price; zero whitelist price; IBC denom
+        let mut cfg = oe_cfg(variant);
+        cfg.wl = oe_wl_kind(variant);
+        cfg.wl_price = 60;
+        cfg.fp.denom = IBC.into();
+        cfg.payment_address = variant == 1;
+        v.push(Case2::Oe {
+            cfg,
+            ops: vec![
+                OeOp::At { secs: 1500, nanos: 0 },
+                omint(BUYERS[0], i(100)),
+                omint(BUYERS[0], n(60)),
+                omint(BUYERS[0], i(59)),
+                omint(BUYERS[0], i(60)),
+                omint(STRANGER, i(60)),
+                OeOp::At { secs: 3100, nanos: 0 },
+                omint(BUYERS[0], i(60)),
+                omint(BUYERS[0], n(100)),
+                omint(BUYERS[0], i(100)),
+                omint_to(CREATOR, n(40)),
+                omint_to(CREATOR, i(40)),
+            ],
+        });
+        // free capped edition
+        let mut cfg = oe_cfg(variant);
+        cfg.fp.min_price = 0;
+        cfg.price = 0;
+        cfg.fp.airdrop_price = 0;
+        v.push(Case2::Oe {
+            cfg,
+            ops: vec![
+                OeOp::At { secs: 3100, nanos: 0 },
+                omint(BUYERS[0], n(1)),
+                omint(BUYERS[0], vec![]),
+                omint_to(CREATOR, n(1)),
+                omint_to(CREATOR, vec![]),
+            ],
+        });
+        // very large price
+        let mut cfg = oe_cfg(variant);
+        cfg.fp.min_price = BIG - 1;
+        cfg.price = BIG;
+        cfg.fp.mint_fee_bps = 3333;
+        cfg.fp.airdrop_price = BIG;
+        cfg.fp.airdrop_fee_bps = 9999;
+        v.push(Case2::Oe {
+            cfg,
+            ops: vec![
+                OeOp::At { secs: 3100, nanos: 0 },
+                omint(BUYERS[0], n(BIG - 1)),
+                omint(BUYERS[0], n(BIG)),
+                omint_to(CREATOR, n(BIG + 1)),
+                omint_to(CREATOR, n(BIG)),
+            ],
+        });
+    }
+    // base minter: amounts 0 (never mintable), 1 (burn share 0: rejected), 2, odd, large
+    let bm = |funds: Vec<(String, u128)>| OeOp::BaseMint { who: CREATOR.into(), uri: URI.into(), funds };
+    let bs = |bps: u64| OeOp::BaseSudoParams { min_price: None, mint_fee_bps: Some(bps) };
+    v.push(Case2::Base {
+        cfg: BaseCfg { min_price: 10000, mint_fee_bps: 0, ..BaseCfg::default() },
+        ops: vec![
+            bm(vec![]),
+            bm(n(1)),
+            bs(1),
+            bm(n(1)),
+            bm(vec![]),
+            bs(2),
+            bm(n(1)),
+            bm(n(3)),
+            bm(i(2)),
+            bm(n(2)),
+            bs(3),
+            bm(n(3)),
+            bs(10000),
+            bm(n(9999)),
+            bm(n(10001)),
+            bm(sorted(vec![(NATIVE.to_string(), 10000), (IBC.to_string(), 1)])),
+            bm(n(10000)),
+            OeOp::BaseMint { who: STRANGER.into(), uri: URI.into(), funds: n(10000) },
+            // the factory's minimum moves: the amount in force stays tied to the price stored at creation
+            OeOp::BaseSudoParams { min_price: Some(500), mint_fee_bps: Some(5000) },
+            bm(n(250)),
+            bm(n(5000)),
+        ],
+    });
+    v.push(Case2::Base {
+        cfg: BaseCfg { min_price: BIG, mint_fee_bps: 3333, ..BaseCfg::default() },
+        ops: vec![bm(n(BIG * 3333 / 10000 - 1)), bm(n(BIG * 3333 / 10000 + 1)), bm(n(BIG * 3333 / 10000))],
+    });
+    v
+}
+
+fn shrink2(c: &Case2, key: &str, at: usize) -> Case2 {
+    let with_ops = |ops: Vec<OeOp>| match c {
+        Case2::Oe { cfg, .. } => Case2::Oe { cfg: cfg.clone(), ops },
+        Case2::Base { cfg, .. } => Case2::Base { cfg: cfg.clone(), ops },
+    };
+    let all: &Vec<OeOp> = match c {
+        Case2::Oe { ops, .. } | Case2::Base { ops, .. } => ops,
+    };
+    let shows = |ops: &Vec<OeOp>| run_case2(&with_ops(ops.clone())).violations.iter().any(|v| v.0 == key);
+    let mut best: Vec<OeOp> = all[..=at.min(all.len() - 1)].to_vec();
+    if !shows(&best) {
+        return c.clone();
+    }
+    let mut budget = 60;
+    let mut k = 0;
+    while k + 1 < best.len() && budget > 0 {
+        let mut cand = best.clone();
+        cand.remove(k);
+        budget -= 1;
+        if shows(&cand) {
+            best = cand;
+        } else {
+            k += 1;
+        }
+    }
+    with_ops(best)
+}
+
+/// order the cases so that every block of `ceil(n/shards)` cases has about the same text size
+/// (write_cases cuts the list into equal counts)
+fn balance_shards(coq_cases: &mut Vec<String>, shards: usize) {
+    if coq_cases.is_empty() {
+        return;
+    }
+    let per = (coq_cases.len() + shards - 1) / shards;
+    let mut order: Vec<usize> = (0..coq_cases.len()).collect();
+    order.sort_by_key(|i| std::cmp::Reverse(coq_cases[*i].len()));
+    let mut buckets: Vec<(usize, Vec<usize>)> = vec![(0, vec![]); shards];
+    for i in order {
+        let b = buckets.iter_mut().filter(|b| b.1.len() < per).min_by_key(|b| b.0).unwrap();
+        b.0 += coq_cases[i].len();
+        b.1.push(i);
+    }
+    let idx: Vec<usize> = buckets.into_iter().flat_map(|b| b.1).collect();
+    let taken: Vec<String> = idx.into_iter().map(|i| std::mem::take(&mut coq_cases[i])).collect();
+    *coq_cases = taken;
+}
+
+enum AnyCase {
+    V(Case),
+    O(Case2),
+}
+
+pub fn run(a: &Args) {
+    let out = OutDir::new(&a.out);
+    let mut rep = Report { property: "C02".into(), tier: a.tier.clone(), seed: a.seed, ..Default::default() };
+    let mut results: Vec<(AnyCase, CaseResult)> = vec![];
+    if let Some(p) = &a.replay {
+        #[derive(Deserialize)]
+        struct ReplayFile {
+            case: Option<Case>,
+            case2: Option<Case2>,
+        }
+        let rf: ReplayFile = serde_json::from_str(&std::fs::read_to_string(p).expect("replay file")).expect("replay json");
+        if let Some(c) = rf.case {
+            let r = run_case(&c);
+            results.push((AnyCase::V(c), r));
+        }
+        if let Some(c) = rf.case2 {
+            let r = run_case2(&c);
+            results.push((AnyCase::O(c), r));
+        }
+    } else {
+        let mut rng = Rng::new(a.seed);
+        for c in corpus() {
+            let r = run_case(&c);
+            results.push((AnyCase::V(c), r));
+        }
+        for c in corpus2() {
+            let r = run_case2(&c);
+            results.push((AnyCase::O(c), r));
+        }
+        let lits = literals();
+        let per_variant = if a.thorough() { 100 } else { 13 };
+        for _ in 0..per_variant {
+            for variant in 0..6 {
+                let (c, r) = gen_case(&mut rng, variant, a.thorough(), &lits);
+                results.push((AnyCase::V(c), r));
+            }
+        }
+        let per_oe = if a.thorough() { 80 } else { 10 };
+        for _ in 0..per_oe {
+            for variant in 0..3 {
+                let (c, r) = gen_oe(&mut rng, variant, a.thorough(), &lits);
+                results.push((AnyCase::O(c), r));
+            }
+        }
+        for _ in 0..(if a.thorough() { 80 } else { 8 }) {
+            let (c, r) = gen_base(&mut rng, a.thorough());
+            results.push((AnyCase::O(c), r));
+        }
+    }
+    let mut coq_cases = vec![];
+    let mut coq_cases2 = vec![];
+    let mut nviol = 0;
+    let mut distinct: BTreeSet<String> = BTreeSet::new();
+    let mut seen_keys: BTreeMap<String, u32> = BTreeMap::new();
+    let ncases = results.len();
+    for (idx, (c, r)) in results.into_iter().enumerate() {
+        rep.evaluations += r.steps;
+        for (k, v) in &r.hist {
+            *rep.histogram.entry(k.clone()).or_insert(0) += v;
+        }
+        distinct.extend(r.distinct.iter().cloned());
+        for (key, what, at) in r.violations.iter() {
+            let seen = seen_keys.entry(key.clone()).or_insert(0);
+            *seen += 1;
+            // one replay for the recorded finding, up to three per key for anything else
+            if *seen > if key == KNOWN_KEY { 1 } else { 3 } || nviol >= 20 {
+                continue;
+            }
+            nviol += 1;
+            let case_json = match &c {
+                AnyCase::V(c) => {
+                    let small = if a.replay.is_some() { c.clone() } else { shrink(c, key, *at) };
+                    format!("\"case\": {}", serde_json::to_string(&small).unwrap())
+                }
+                AnyCase::O(c) => {
+                    let small = if a.replay.is_some() { c.clone() } else { shrink2(c, key, *at) };
+                    format!("\"case2\": {}", serde_json::to_string(&small).unwrap())
+                }
+            };
+            let body = format!(
+                "{{\n \"property\": \"C02\",\n \"key\": {},\n {},\n \"violation\": {}\n}}\n",
+                serde_json::to_string(key).unwrap(),
+                case_json,
+                serde_json::to_string(what).unwrap()
+            );
+            let path = out.write_replay(&format!("C02-{}.json", nviol), &body);
+            rep.violations.push(Violation { key: key.clone(), what: what.clone(), replay: path });
+        }
+        if rep.samples.len() < 3 && (idx % 61 == 7 || a.replay.is_some()) {
+            match &c {
+                AnyCase::V(c) => rep.samples.push(serde_json::json!({"variant": VARIANTS[c.variant].name, "ibc": c.ibc, "price": c.price.to_string(),
+                    "mint_fee_bps": c.mint_fee_bps, "airdrop_price": c.airdrop_price.to_string(), "airdrop_fee_bps": c.airdrop_fee_bps,
+                    "payment_address": c.payment_address, "whitelist": c.wl,
+                    "first_ops": c.ops.iter().take(8).map(|o| format!("{:?}", o)).collect::<Vec<_>>(), "steps": r.steps, "ok_mints": r.ok_mints})),
+                AnyCase::O(Case2::Oe { cfg, ops }) => rep.samples.push(serde_json::json!({"variant": OE_VARIANTS[cfg.variant].name, "denom": cfg.fp.denom,
+                    "price": cfg.price.to_string(), "mint_fee_bps": cfg.fp.mint_fee_bps, "airdrop_price": cfg.fp.airdrop_price.to_string(),
+                    "airdrop_fee_bps": cfg.fp.airdrop_fee_bps, "payment_address": cfg.payment_address, "num_tokens": cfg.num_tokens,
+                    "first_ops": ops.iter().take(8).map(|o| format!("{:?}", o)).collect::<Vec<_>>(), "steps": r.steps, "ok_mints": r.ok_mints})),
+                AnyCase::O(Case2::Base { cfg, ops }) => rep.samples.push(serde_json::json!({"variant": "base-minter", "min_price": cfg.min_price.to_string(),
+                    "mint_fee_bps": cfg.mint_fee_bps,
+                    "first_ops": ops.iter().take(8).map(|o| format!("{:?}", o)).collect::<Vec<_>>(), "steps": r.steps, "ok_mints": r.ok_mints})),
+            }
+        }
+        if let Some(cq) = r.coq {
+            match &c {
+                AnyCase::V(_) => coq_cases.push(cq),
+                AnyCase::O(_) => coq_cases2.push(cq),
+            }
+        }
+    }
+    balance_shards(&mut coq_cases, 6);
+    balance_shards(&mut coq_cases2, 3);
+    rep.distinct_nontrivial = distinct.len() as u64;
+    rep.rule = "sale worlds on each of the six vending minters, the three open-edition minters and the base minter, created through their factories with governance-chosen price / mint fee bps / airdrop price / airdrop fee bps (moved by sudo during the history), native or IBC denom, with/without payment address, optional whitelist with its own price, discount set/removed (vending), capped/uncapped (open edition); before every mint the price in force is queried and the sweep price-1, price+1, wrong denom, two coins, nothing (a coin at price 0), exact is sent; evaluations = minter steps executed on the real contracts; distinct_nontrivial = distinct (variant, mint kind, price, denom, fee bps, seller) among SUCCESSFUL mints".into();
+    if !coq_cases.is_empty() {
+        out.write_cases("C02", "From LP Require Import Num Pay Sg1 Bank MinterVending SaleCorr.", "scase", "sale_check", &coq_cases, 6, &mut rep);
+    }
+    if !coq_cases2.is_empty() {
+        out.write_cases("C02oe", "From LP Require Import Num Pay Sg1 Bank MinterVending MinterOpen SaleOeCorr.", "oecase", "sale_oe_check", &coq_cases2, 3, &mut rep);
+    }
+    rep.notes.push("observation (not a C02 clause, not flagged): the vending and open-edition MintPrice queries build airdrop_price = coin(factory airdrop amount, CONFIG mint denom) while the handler charges the factory's airdrop coin in its own denom (vending factory: always ustars); on an IBC-denominated vending minter the query therefore shows e.g. `9999 ibc/..` while MintTo only accepts `9999 ustars`. The monitors take the airdrop price in force (amount and denom) from the factory parameters.".into());
+    rep.notes.push("token-merge minter: not covered by C02's model (deposit logic belongs to C17); by reading, its airdrop path shares the vending airdrop-remainder behaviour".into());
+    out.finish(&rep);
+    println!("C02 harness: {} cases, {} steps, {} monitor violations reported", ncases, rep.evaluations, nviol);
 }
